@@ -2,8 +2,9 @@ CONSTANTS
   Lens = {80, 255, 256}
   Kinds = {"plain", "quoted", "nonascii"}
   MaxAddrs = 8
-  RecBudget = 333
-  StaleLenByte = FALSE
+  RecBudget = 331
+  HdrBudget = 104
+  QuoteBug = FALSE
   Truncate = FALSE
 INIT Init
 NEXT Next
